@@ -78,6 +78,8 @@ def save(tensor_frame: TensorFrame,
         'y': tensor_frame.y,
         'col_names_dict': tensor_frame.col_names_dict,
         'feat_serialized_dict': serialize_feat_dict(tensor_frame.feat_dict),
+        # An explicitly given number of rows (frames without features):
+        'num_rows': tensor_frame._num_rows,
     }
     torch.save((tf_dict, col_stats), path)
 
